@@ -70,7 +70,7 @@ PutC03(r, pre, post) ==
   /\ r.path = "remote" =>
        IF PutValid(r)
        THEN r.res \in {"ok", "NewerEntryExists"}
-       ELSE /\ r.res \in Rejections
+       ELSE /\ r.res # "ok"          \* refused (with which variant is not C03's business)
             /\ post = pre
             /\ \A s \in 1..Len(r.evs) : r.evs[s] = <<>>
 
